@@ -5,7 +5,7 @@
 ROOT=$(cd "$(dirname "$0")/.." && pwd)
 cd "$ROOT"
 ids="$@"
-[ -z "$ids" ] && ids=$(ls seeded | grep -E '^C[0-9]+$')
+[ -z "$ids" ] && ids=$(ls seeded | grep -E '^C[0-9]+[a-z]?$')
 for id in $ids; do
   [ -f seeded/$id/patch.diff ] || continue
   if ! git -C /repo apply --check "$ROOT/seeded/$id/patch.diff" 2>/dev/null; then
@@ -13,7 +13,7 @@ for id in $ids; do
     continue
   fi
   git -C /repo apply "$ROOT/seeded/$id/patch.diff"
-  for prop in $id $EXTRA; do
+  for prop in ${id:0:3} $EXTRA; do
     # the evidence files describe the unchanged tree: keep them out of the way of a run on a seeded tree
     cp "evidence/$prop.json" "work/evidence.$prop.keep" 2>/dev/null
     out=$(bin/check $prop quick 2>&1)
